@@ -717,6 +717,36 @@ func runNoInPlace(c *Ctx, r *Reporter) {
 	if n == 0 {
 		r.Undecided("no appending function found in the formatter")
 	}
+	// the fmt command: the members of a txtar archive are sub-slices of the one input buffer (txtar.Parse), so output
+	// appended onto a reslice of a member's Data overwrites the members that follow before they are formatted
+	if mainPkg := p.Pkg(""); mainPkg != nil {
+		for _, fd := range Funcs(mainPkg) {
+			if !strings.HasSuffix(p.Fset.Position(fd.Decl.Pos()).Filename, "main.go") {
+				continue
+			}
+			sf := p.SSAFunc(fd.Obj)
+			if sf == nil {
+				continue
+			}
+			k := 0
+			for _, fn := range withAnon(sf) {
+				for _, b := range fn.Blocks {
+					for _, ins := range b.Instrs {
+						call, ok := ins.(*ssa.Call)
+						if !ok {
+							continue
+						}
+						if bi, ok := call.Call.Value.(*ssa.Builtin); !ok || bi.Name() != "append" {
+							continue
+						}
+						k++
+						r.Check(!sharedBase(call.Call.Args[0], 6), fmt.Sprintf("%s#no-in-place-append[%d]", fd.QName(), k), p.Rel(instrPos(call)), "results are built in fresh slices",
+							"appends onto a reslice of a buffer it was handed ("+call.String()+"): the members of a txtar archive share the input buffer, so a formatted member that grew overwrites the source of the next one before it is parsed")
+					}
+				}
+			}
+		}
+	}
 }
 
 // sharedBase: v is a reslice x[:k] / x[i:j] whose base is a parameter or a value loaded from a map/field.
@@ -727,7 +757,7 @@ func sharedBase(v ssa.Value, depth int) bool {
 	switch x := v.(type) {
 	case *ssa.Slice:
 		switch b := x.X.(type) {
-		case *ssa.Parameter, *ssa.Lookup, *ssa.Extract:
+		case *ssa.Parameter, *ssa.Lookup, *ssa.Extract, *ssa.Field:
 			return true
 		case *ssa.UnOp:
 			if _, isField := b.X.(*ssa.FieldAddr); isField {
